@@ -1587,6 +1587,8 @@ func (c *Configuration) convertIngressToVSR(ing *networking.Ingress) *conf_v1.Vi
 		ObjectMeta: metav1.ObjectMeta{
 			Namespace: ing.Namespace,
 			Name:      ing.Name,
+			// the route changes whenever the Ingress it is converted from changes
+			Generation: ing.Generation,
 		},
 		Spec: conf_v1.VirtualServerRouteSpec{
 			Host: rule.Host,
